@@ -30,6 +30,12 @@ OPS = {
     "C16.Nearest": "TraverseIntersectingRay.narrowing", "C16.ListHit": "HitList.Hit", "C16.BvhHit": "BVHNode.Hit",
     "C16.OctHit": "Tree.Hit", "C16.MeshHit": "rendering.Mesh.Hit", "C16.MeshHit2": "rendering.Mesh.Hit2", "C16.TreeSound": "NewOctree", "C16.Build": "build",
     ("C16.ScanAgree", "tree"): "Primitive.BoundingBox", ("C16.ScanAgree", "closest"): "Primitive.ClosestPoint",
+    # round 5: the model's own scan over lattice bounds, and IEEE respellings of a query (negative zero, ...)
+    "C16.ContainRef": "AABB.Contains+ElementsContainingPoint", "C16.RangeRef": "AABB.ClosestPoint+ElementsWithinRange",
+    "C16.RayRef": "AABB.IntersectsRayInRange+ElementsIntersectingRay",
+    ("C16.ValueClass", "closest"): "ClosestPoint", ("C16.ValueClass", "contain"): "ElementsContainingPoint",
+    ("C16.ValueClass", "range"): "ElementsWithinRange", ("C16.ValueClass", "ray"): "ElementsIntersectingRay",
+    ("C16.ValueClass", "near"): "TraverseIntersectingRay.narrowing", ("C16.ValueClass", "hit"): "Hittable.Hit",
 }
 
 
@@ -214,7 +220,14 @@ def reduced_case(case, k, entry):
     c["qpts"], c["ranges"], c["rays"] = [], [], []
     if k in QUERY_LIST and entry >= 1:
         lst = QUERY_LIST[k]
-        c[lst] = [case[lst][entry - 1]]
+        q = list(case[lst][entry - 1])
+        # round 5: a value-class variant is judged against its twin: keep the twin, as query 1
+        tw = q[-1] if len(q) in (5, 8, 11) else 0
+        if tw:
+            q[-1] = 1
+            c[lst] = [case[lst][tw - 1], q]
+        else:
+            c[lst] = [q]
     return c
 
 
@@ -267,11 +280,23 @@ def stats(raw, acc, cases):
                 acc[k] += 1
                 if e["hit"]:
                     acc[k + "_nonempty"] += 1
+                if e.get("tw"):
+                    acc["set_queries_with_twin"] += 1
+                if k == "ray":
+                    q = e.get("q") or [0] * 11
+                    if sum(1 for x in q[3:6] if x) == 1:
+                        acc["ray_axis_parallel"] += 1
+                    if q[9] & 0b111000:
+                        acc["ray_negative_zero_direction"] += 1
+                        if e["hit"]:
+                            acc["ray_negative_zero_direction_nonempty"] += 1
                 if k == "range" and e["hit"] and by_id[t["case"]]["ranges"][i][3] > 0:
                     acc["range_positive_radius_nonempty"] += 1
         elif k == "near":
             for e in t["b"]:
                 acc["near"] += 1
+                if e.get("tw"):
+                    acc["near_with_twin"] += 1
                 c = sum(1 for x in e["te"] if x > -2000000000)
                 if c >= 1:
                     acc["near_hit"] += 1
@@ -280,6 +305,8 @@ def stats(raw, acc, cases):
         elif k == "hit":
             for e in t["b"]:
                 acc["hit"] += 1
+                if e.get("tw"):
+                    acc["hit_with_twin"] += 1
                 c = sum(1 for x in e["te"] if x > -2000000000)
                 if c >= 1:
                     acc["hit_hit"] += 1
@@ -298,7 +325,9 @@ STAT_KEYS = ["trees", "trees_with_children", "trees_depth2plus", "trees_cell_wit
              "trees_from_mesh", "trees_nonidentity_indices", "trees_attribute_route", "trees_on_second_attribute",
              "tri_trees_on_second_attribute_nonidentity", "trees_mesh_without_position",
              "trees_mesh_with_decoy_attribute", "closest_mesh_level_scan", "hit_rendering_mesh",
-             "hit_rendering_mesh_hit"]
+             "hit_rendering_mesh_hit",
+             "set_queries_with_twin", "ray_axis_parallel", "ray_negative_zero_direction",
+             "ray_negative_zero_direction_nonempty", "near_with_twin", "hit_with_twin"]
 
 
 def report(ctx, vh, cases, findings, confirm=True):
